@@ -8,6 +8,8 @@ Correspondence streams (every case: implementation run, direct property oracle, 
          keywords, aggregate attrs:k / defaults:k, spreads, non-identifier keys, bool / None / numbers
   hist   HISTORY: the same attrs / defaults dictionary OBJECTS passed to 2-4 successive {% html_attrs %} calls (separate renders,
          several tags in one template, a {% for %} loop): every call = the call alone on fresh dicts, inputs unchanged, model run_heap
+  twin   process-wide state: the same (name, text) as SafeString and as plain str in one process, both orders, through
+         attributes_to_string / the tag (attrs, defaults, keyword, spread) / slot content; runs FIRST (fresh state) and LAST
   parse  reader differential: the model's attribute tokenizer against html.parser on attribute text
   slot   Component.render(slots=...) x escape flag x chains of re-passing (incl. the dynamic component)
   wrap   wrap_component_js / wrap_component_css on end-tag look-alikes + real renders with inlined JS/CSS
@@ -871,6 +873,118 @@ def stream_hist(chk, thorough, corpus_cases):
 
 
 # ---------------------------------------------------------------------------------------------
+# stream: TWINS - process-wide state: the same (name, text) rendered once as a SafeString and once as a plain str
+#   within one process, in both orders, through attributes_to_string, the {% html_attrs %} tag (attrs dict, defaults dict,
+#   keyword) and Python-passed slot content (string, function).  Every render must be the pure function of its OWN
+#   arguments (escaped iff not safe) whatever was rendered before.  Runs FIRST (fresh process state) and again at the END
+#   (after ~30k other renders), where the pairs of the first phase are rendered once more as well.
+# ---------------------------------------------------------------------------------------------
+TRIG_TWIN = "c13-twin-state"
+TWIN_TEXTS = ['x" onmouseover="alert(1)', "Tom &amp; Jerry", "<b>", "a'b", "a&b", ">", "it&#x27;s", "&lt;&quot;"]
+TWIN_SLOT_TEXTS = ["<b>x</b>", "Tom &amp; Jerry", 'q"\'', "a&amp;b", "<i>é</i> &lt;"]   # well-formed when emitted raw
+TWIN_ORDERS = [("safe", "s"), ("s", "safe"), ("safe", "s", "safe"), ("s", "safe", "s")]
+_twin_seen = []     # (path, name, text) of the first phase, rendered again at the end
+
+
+def twin_paths():
+    def ats(name, v):
+        return ("ats", [(name, v)])
+
+    def tag_attrs(name, v):
+        return ("tag", [["pos", [(name, v)]]])
+
+    def tag_defaults(name, v):
+        return ("tag", [["pos", [("id", ["s", "i"])]], ["pos", [(name, v)]]])
+
+    def tag_kw(name, v):
+        return ("tag", [["kw", name, v]])
+
+    def tag_spread(name, v):
+        return ("tag", [["spread", [[name, v]]]])
+    return {"ats": ats, "tag-attrs": tag_attrs, "tag-defaults": tag_defaults, "tag-kw": tag_kw, "tag-spread": tag_spread}
+
+
+def stream_twins(chk, phase):
+    rng = chk.rng
+    paths = twin_paths()
+    names = ["title", "class", "data-x"]
+    texts = list(TWIN_TEXTS) + [t for t in (rand_text(rng, 8) for _ in range(12)) if any(c in t for c in "\"'<>&")][:4]
+    seqs = []       # [(label, [(path, name, valuedesc) ...])]
+    n = 0
+    for text in texts:
+        for order in TWIN_ORDERS:
+            # same path for both twins, and the twins crossing between the direct call and the tag
+            for plist in [[p] * len(order) for p in paths] + [["ats", "tag-attrs", "ats"][:len(order)], ["tag-kw", "ats", "tag-defaults"][:len(order)]]:
+                n += 1
+                # a text no earlier sequence used: the pair starts from a state that never saw it
+                t = "%s #%s%d" % (text, phase, n)
+                name = names[n % len(names)]
+                seqs.append(("-".join(order), [(pth, name, [kind, t]) for pth, kind in zip(plist, order)]))
+    if phase == "end":
+        for pth, name, t in _twin_seen:
+            seqs.append(("again", [(pth, name, ["s", t]), (pth, name, ["safe", t]), (pth, name, ["s", t])]))
+    ats_terms, ats_kept, tag_terms, tag_kept = [], [], [], []
+    for label, seq in seqs:
+        history = []
+        for pth, name, v in seq:
+            kind, arg = paths[pth](name, v)
+            if kind == "ats":
+                r = run_ats(arg)
+                res = ("out", r[1]) if r[0] == "out" else ("err", r[1], "")
+            else:
+                res, _src = run_tag(arg)
+            MUTATED.clear()
+            history.append({"path": pth, "name": name, "value": v, "result": res[1]})
+            replay = {"kind": "twin", "sequence": [[p_, n_, v_] for p_, n_, v_ in seq], "upto": len(history), "history": history}
+            chk.count(("twin", phase, pth, name, repr(v), len(history), label), True, kind="twin-%s-%s" % (phase, pth.split("-")[0]),
+                      sample=dict(replay) if len(history) == 2 and len(chk.samples) < 6 and phase == "first" else None)
+            want = '%s="%s"' % (name, v[1] if v[0] == "safe" else html.escape(v[1]))
+            if pth == "tag-defaults":
+                want = want + ' id="i"'    # defaults first, then the names only attrs has
+            if res[0] != "out" or res[1] != want:
+                chk.fail(TRIG_TWIN, "attribute %s rendered %s after its %s twin (same name, same text) was rendered in this process: not the pure "
+                         "function of its own arguments" % ("marked safe" if v[0] == "safe" else "as a plain str",
+                                                            "escaped" if v[0] == "safe" else "UNESCAPED or wrong",
+                                                            "plain" if v[0] == "safe" else "safe"), dict(replay, expected=want))
+            if kind == "ats":
+                ats_terms.append("(%s, %s)" % (dict_term(arg), "Some %s" % cstr(res[1]) if res[0] == "out" else "None"))
+                ats_kept.append(replay)
+            else:
+                tag_terms.append("(%s, %s, None)" % (clist([tparam_term(k, x) for k, x in flat_params(arg)]), outcome_term(res)))
+                tag_kept.append(replay)
+        if phase == "first" and len(seq) == 2:
+            _twin_seen.append((seq[0][0], seq[0][1], seq[0][2][1]))
+    # slot content: string and function, safe twin / plain twin of the same text, escape_slots_content on
+    slot_terms, slot_kept = [], []
+    sn = 0
+    for text in TWIN_SLOT_TEXTS:
+        for order in TWIN_ORDERS[:2] + ([TWIN_ORDERS[2]] if phase == "end" else []):
+            for form in ("str", "fun"):
+                sn += 1
+                t = "%s<!--%s%d-->" % (text, phase, sn)
+                history = []
+                for kind in order:
+                    content = [form, ["safe" if kind == "safe" else "p", t]]
+                    res = run_slot(content, True, [])
+                    history.append({"content": content, "result": res[1]})
+                    replay = {"kind": "twin-slot", "content": content, "escape_slots_content": True, "hops": [], "history": history}
+                    chk.count(("twin-slot", phase, repr(content), len(history), sn), True, kind="twin-%s-slot" % phase)
+                    want = t if kind == "safe" else html.escape(t)
+                    if res[0] != "out" or res[1] != want:
+                        chk.fail(TRIG_TWIN, "slot content rendered differently after its safe / plain twin (same text) was rendered in this process",
+                                 dict(replay, expected=want))
+                    if res[0] == "out":
+                        slot_terms.append(slot_term(content, True, [], res[1]))
+                        slot_kept.append(replay)
+    for tag, ctype, fn, terms, kept in (("twin_ats_" + phase, "ats_case", "check_ats", ats_terms, ats_kept),
+                                        ("twin_tag_" + phase, "tag_case", "check_tag", tag_terms, tag_kept),
+                                        ("twin_slot_" + phase, "slot_case", "check_slot", slot_terms, slot_kept)):
+        bad = C.coq_eval_cases("C13", tag, IMPORTS, ctype, fn, terms, shard=1500)
+        for i in bad[:5]:
+            chk.disagree("model != implementation on a render that follows its safe / plain twin", kept[i])
+
+
+# ---------------------------------------------------------------------------------------------
 # stream: reader differential (model tokenizer vs html.parser) on well-formed attribute text
 # ---------------------------------------------------------------------------------------------
 def gen_attr_text(rng):
@@ -1221,6 +1335,8 @@ def run(tier, seed):
     only = os.environ.get("VERIF_C13_STREAMS")  # development aid: comma-separated subset of streams
     def on(name):
         return only is None or name in only.split(",")
+    if on("twin"):
+        stream_twins(chk, "first")                      # process-wide state: must run before anything else renders
     if on("wrap"):
         stream_wrap(chk, thorough, corpus["wrap"])      # corpus witnesses (fixed defect e6d6b5a) run first
         wrap_render_oracle(chk, thorough)
@@ -1236,6 +1352,8 @@ def run(tier, seed):
         stream_parse(chk, thorough)
     if on("slot"):
         stream_slot(chk, thorough)
+    if on("twin"):
+        stream_twins(chk, "end")
     chk.assumptions = [
         "reader = html.parser (Python 3.12) on `<div ATTRS>`; names compared ASCII-lower-cased (HTML attribute names are case-insensitive), as a multiset",
         "the model's reader is the WHATWG attribute tokenizer without CR/NUL input preprocessing; character references need the closing ';'",
@@ -1257,7 +1375,10 @@ def run(tier, seed):
              "passing the dicts x 3 tails, random param lists (positional, attrs=/defaults=, attrs:k/defaults:k, repeated keywords, spreads, non-identifier "
              "keys, invalid names, SafeString keys, ill-formed mixes); hist: the same attrs / defaults dict OBJECTS through 2-4 successive calls - all "
              "attrs sequences of length 2-3 over 4 objects with a shared defaults (or attrs) object x {separate renders, one template, for-loop} + 500 "
-             "random histories; every call compared with the same call alone on fresh dicts, objects compared with their description before; parse: random well-formed attribute text; slot: 11 texts x plain/safe x "
+             "random histories; every call compared with the same call alone on fresh dicts, objects compared with their description before; twin: 12 "
+             "hostile texts x {safe,plain / plain,safe / s,p,s / p,s,p} x 7 path combinations (attributes_to_string, tag attrs / defaults / keyword / "
+             "spread, crossing) + slot string / function twins, each on a text no earlier render used, run first in a fresh process state and again "
+             "last (+ the first phase's pairs once more); parse: random well-formed attribute text; slot: 11 texts x plain/safe x "
              "str/function/Slot/Slot(escaped) x flag x all hop chains <= 2 over {repass T/F, rewrap T/F, dynamic} + random longer; wrap: every listed context "
              "x letter-case variants of </script / </style, look-alikes, Unicode case-folding traps, random strings over the end-tag alphabet, 24 real "
              "renders. Non-trivial = value with a special character or an append (attrs), >= 2 calls with different attrs sharing one non-empty defaults object (hist), special characters travelling through >= 1 hop (slot), an end "
@@ -1298,6 +1419,14 @@ def replay(path):
             print(" call %d alone on fresh dicts:" % (i + 1), run_tag(hist_call_params(case, i))[0])
         print("objects before:", before)
         print("objects after :", after)
+    elif k == "twin":
+        paths = twin_paths()
+        for pth, name, v in case["sequence"]:
+            kind, arg = paths[pth](name, [v[0], v[1]])
+            print(pth, name, v, "->", run_ats([(a, b) for a, b in arg]) if kind == "ats" else run_tag(arg)[0])
+    elif k == "twin-slot":
+        for h in case["history"]:
+            print(h["content"], "->", run_slot(h["content"], True, []))
     elif k == "slot":
         print("impl:", run_slot(case["content"], case["escape_slots_content"], case["hops"]))
         print("statement:", slot_expected(case["content"], case["escape_slots_content"], case["hops"]))
